@@ -279,6 +279,21 @@ class LayoutRunner:
             return
         ctx.ev()
         want = self.oracle.decode(data)
+        self.k = getattr(self, "k", 0) + 1
+        if self.cls == "Restreamed" and len(self.layout) >= 2 and self.k % 4 == 1:
+            # calls that fail part-way on the same region object (input cut inside a field; a value whose last field cannot be
+            # built after the first bits were emitted): whatever they leave behind must not show in the calls that follow
+            for cut in (len(data) - 1, 1):
+                if 0 < cut < len(data):
+                    try:
+                        self.d.parse(data[:cut], **self.kw)
+                    except Exception:
+                        pass
+            try:
+                self.d.build(dict(want, **{"f%d" % (len(self.layout) - 1): "not buildable"}), **self.kw)
+            except Exception:
+                pass
+            ctx.count("failing_calls_interleaved")
         try:
             got = self.d.parse(data, **self.kw)
         except Exception as e:
